@@ -234,3 +234,127 @@ def views_consistent(run, case, traj, scale=None, pfx="views", key=None):
     run.check(worst_se3 <= 1e-9, pfx + ": matrices are rigid-body poses", case,
               "a pose matrix is %g away from SE(3)" % worst_se3, key=pfx + ":not-se3")
     return v
+
+
+# ------------------------------------------------------------------ C05 association oracle
+def _frac(x):
+    from fractions import Fraction
+    return Fraction(float(x))
+
+
+def association_oracle(run, case, t1, t2, max_diff, offset, pairs, raised, exact=False,
+                       pfx="assoc"):
+    """
+    Judge one association of stamp vectors t1, t2 (strictly increasing float arrays).
+    pairs: list of (i1, i2) index pairs evo produced (in output order) or None if it raised
+    raised: None | 'SyncException' | other exception name
+    exact: True on dyadic workloads (float arithmetic is exact -> no boundary band)
+    Distances are evaluated in exact rational arithmetic: d(i,j) = |t1[i] - (t2[j] + offset)|.
+    """
+    n1, n2 = len(t1), len(t2)
+    F1 = [_frac(v) for v in t1]
+    F2 = [_frac(v) + _frac(offset) for v in t2]
+    MD = _frac(max_diff)
+    mag = max(abs(float(t1[0])), abs(float(t1[-1])), abs(float(t2[0])), abs(float(t2[-1])),
+              abs(float(offset)), abs(float(max_diff)), 1e-300)
+    band = _frac(0.0) if exact else _frac(4 * float(np.spacing(mag)))
+    f2_float = [float(v) for v in F2]
+
+    def nearest_in_2(i):
+        import bisect
+        k = bisect.bisect_left(f2_float, float(F1[i]))
+        c = [j for j in range(max(0, k - 2), min(n2, k + 2))]
+        best = min(abs(F1[i] - F2[j]) for j in c)
+        return best, [j for j in c if abs(F1[i] - F2[j]) <= best + band]
+
+    f1_float = [float(v) for v in F1]
+
+    def nearest_in_1(j):
+        import bisect
+        k = bisect.bisect_left(f1_float, float(F2[j]))
+        c = [i for i in range(max(0, k - 2), min(n1, k + 2))]
+        best = min(abs(F1[i] - F2[j]) for i in c)
+        return best, [i for i in c if abs(F1[i] - F2[j]) <= best + band]
+
+    def must_pairs(first_drives):
+        """pairs required when trajectory 1 (True) or 2 (False) is the driving (shorter) one"""
+        req = []
+        n_drv = n1 if first_drives else n2
+        near = [nearest_in_2(i) if first_drives else nearest_in_1(i) for i in range(n_drv)]
+        owner = {}
+        for a, (best, cands) in enumerate(near):
+            for b in cands:
+                owner.setdefault(b, []).append(a)
+        for a, (best, cands) in enumerate(near):
+            if len(cands) != 1:
+                continue
+            b = cands[0]
+            if best > MD - band:
+                continue
+            if len(owner[b]) != 1:
+                continue  # contested counterpart: excused by the statement
+            req.append((a, b) if first_drives else (b, a))
+        return req
+
+    any_possible = False
+    # is there any pair clearly within max_diff? (then a SyncException is wrong)
+    clear_match = False
+    for i in range(n1):
+        best, _ = nearest_in_2(i)
+        if best <= MD + band:
+            any_possible = True
+        if best <= MD - band:
+            clear_match = True
+
+    if raised is not None:
+        ok = run.check(raised == "SyncException", pfx + ": only SyncException", case,
+                       "association raised %s" % raised, key=pfx + ":wrong-exception")
+        if ok:
+            run.check(not clear_match, pfx + ": no SyncException when a match exists", case,
+                      "SyncException although a pose pair lies within max_diff",
+                      key=pfx + ":false-no-match")
+            run.hit(pfx + ": refusals observed")
+        return
+    run.check(len(pairs) > 0, pfx + ": empty result raises", case,
+              "no pair produced but no SyncException raised", key=pfx + ":empty-no-exception")
+    run.check(any_possible or len(pairs) == 0, pfx + ": pairs only when possible", case,
+              "pairs produced although nothing lies within max_diff", key=pfx + ":impossible-pairs")
+    i1 = [p[0] for p in pairs]
+    i2 = [p[1] for p in pairs]
+    inc1 = all(b > a for a, b in zip(i1, i1[1:]))
+    inc2 = all(b > a for a, b in zip(i2, i2[1:]))
+    run.check(inc1 and inc2, pfx + ": increasing order, no pose used twice", case,
+              "output indices are not strictly increasing (a pose is used more than once or "
+              "order is broken): first=%s second=%s" % (i1[:12], i2[:12]),
+              key=pfx + ":pose-used-twice" if (len(set(i1)) < len(i1) or len(set(i2)) < len(i2))
+              else pfx + ":order-broken")
+    short_is_1 = n1 < n2
+    equal = n1 == n2
+    worst = None
+    for (a, b) in pairs:
+        d = abs(F1[a] - F2[b])
+        run.counters[pfx + ": pair within max_diff"] += 1
+        if d > MD + band:
+            worst = (a, b, float(d))
+        if d == MD:
+            run.hit(pfx + ": boundary pairs with difference == max_diff (exactly)")
+        # nearest-counterpart clause, from the driving trajectory's point of view
+        ok1 = b in nearest_in_2(a)[1]
+        ok2 = a in nearest_in_1(b)[1]
+        good = ok1 if short_is_1 else ok2 if not equal else (ok1 or ok2)
+        run.check(good, pfx + ": paired with a nearest counterpart", case,
+                  "pair (%d,%d) does not join a pose with its temporally nearest counterpart" %
+                  (a, b), key=pfx + ":not-nearest")
+    run.check(worst is None, pfx + ": every pair within max_diff", case,
+              "pair %s exceeds max_diff=%r" % (worst, max_diff), key=pfx + ":beyond-max-diff")
+    have = set(pairs)
+    if equal:
+        miss1 = [p for p in must_pairs(True) if p not in have]
+        miss2 = [p for p in must_pairs(False) if p not in have]
+        missing = miss1 if len(miss1) <= len(miss2) else miss2
+        missing = [] if (not miss1 or not miss2) else missing
+    else:
+        missing = [p for p in must_pairs(short_is_1) if p not in have]
+    run.check(not missing, pfx + ": every uncontested in-range pose is paired", case,
+              "poses with an uncontested nearest counterpart within max_diff were left "
+              "unpaired: %s" % (missing[:6], ), key=pfx + ":unpaired")
